@@ -265,7 +265,24 @@ pub fn operation(rng: &mut Rng, cfg: &GenCfg, branch_targets: &[u64]) -> il::Ope
     }
     if cfg.allow_branch && r >= 60 && r < 60 + cfg.branch_pct {
         let t = if !branch_targets.is_empty() && rng.below(100) >= cfg.unknown_target_pct { *rng.pick(branch_targets) } else { 0xdead_0000 + rng.below(16) };
-        return il::Operation::branch(il::expr_const(t, 64));
+        // the target is an expression: a 64-bit constant, a narrower constant (addresses are unsigned: a 32-bit
+        // target with the top bit set is not sign-extended), or computed from scalars
+        return match rng.below(6) {
+            0 | 1 | 2 => il::Operation::branch(il::expr_const(t, 64)),
+            3 if t < (1 << 32) => il::Operation::branch(il::expr_const(t, 32)),
+            4 => {
+                let s = rng.pick(&cfg.scalars).clone();
+                if s.bits() < 64 {
+                    il::Operation::branch(E::add(E::zext(64, E::Scalar(s)).unwrap(), il::expr_const(t & !0xff, 64)).unwrap())
+                } else {
+                    il::Operation::branch(E::Scalar(s))
+                }
+            }
+            _ => {
+                let s = rng.pick(&cfg.scalars).clone();
+                if s.bits() >= 8 { il::Operation::branch(E::Scalar(s)) } else { il::Operation::branch(il::expr_const(t, 64)) }
+            }
+        };
     }
     let dst = rng.pick(&cfg.scalars).clone();
     let src = if rng.chance(1, 6) {
